@@ -1590,3 +1590,99 @@ func runR135(c *Ctx) {
 		c.okTrivial("column packages|no replicating fill#c", "-", "-")
 	}
 }
+
+// ---- R136: the declared values of an enum are distinct ----
+
+func init() {
+	register(&Rule{ID: "R136", Name: "DECLARED-DISTINCT", Floor: 1,
+		Text: "in internal/ecolumn, every loop that enters the elements of a []string parameter (the declared values of an enum) into a value map (map[string]enumVal) rejects a string that is already in the map: a comma-ok lookup of the same key whose hit edge returns an error dominates the insertion. Filters translate a constant by scanning the table for the first match while the factory's map holds the last index of a repeated value, so with a declared list such as {a, b, a} the cells carry code 2, `= a` looks for code 0 and `< b` finds nothing - silently",
+		Run:  runR136})
+}
+
+func runR136(c *Ctx) {
+	p := c.P
+	ev := p.Named("internal/ecolumn", "enumVal")
+	if ev == nil {
+		c.undecided("internal/ecolumn.enumVal", "-", "type not found")
+		return
+	}
+	n := 0
+	for _, fn := range p.FuncsIn("internal/ecolumn") {
+		loops := loopsOf(fn)
+		eachInstr(fn, func(in ssa.Instruction) {
+			mu, ok := in.(*ssa.MapUpdate)
+			if !ok {
+				return
+			}
+			mt, ok := mu.Map.Type().Underlying().(*types.Map)
+			if !ok {
+				return
+			}
+			if nn, ok := mt.Elem().(*types.Named); !ok || nn.Obj() != ev.Obj() {
+				return
+			}
+			// key: element of a []string parameter at the key of a range over it (possibly through a copy made by append)
+			var li *loopInfo
+			for i := range loops {
+				if inLoop(loops[i], mu.Block()) && loops[i].base != nil {
+					li = &loops[i]
+				}
+			}
+			if li == nil {
+				return
+			}
+			fromParam := false
+			var back func(v ssa.Value, d int)
+			back = func(v ssa.Value, d int) {
+				if d > 5 || fromParam {
+					return
+				}
+				switch t := v.(type) {
+				case *ssa.Parameter:
+					if sl, ok := t.Type().Underlying().(*types.Slice); ok {
+						if b, ok := sl.Elem().Underlying().(*types.Basic); ok && b.Kind() == types.String {
+							fromParam = true
+						}
+					}
+				case *ssa.Call:
+					if builtinName(t) == "append" {
+						for _, a := range t.Call.Args {
+							back(a, d+1)
+						}
+					}
+				case *ssa.Slice:
+					back(t.X, d+1)
+				case *ssa.Phi:
+					for _, e := range t.Edges {
+						back(e, d+1)
+					}
+				}
+			}
+			back(li.base, 0)
+			if !fromParam {
+				return
+			}
+			n++
+			key := fname(fn) + "|declared value entered"
+			guarded := false
+			for _, g := range dominatingGuards(mu.Block()) {
+				ex, ok := g.Cond.(*ssa.Extract)
+				if !ok || ex.Index != 1 || g.Val {
+					continue
+				}
+				lk, ok := ex.Tuple.(*ssa.Lookup)
+				if ok && lk.CommaOk && (lk.X == mu.Map || accessPath(lk.X) == accessPath(mu.Map)) && (stripConv(lk.Index) == stripConv(mu.Key) || accessPath(lk.Index) == accessPath(mu.Key)) {
+					guarded = true
+				}
+			}
+			if guarded {
+				c.ok(key, p.instrPos(mu), "a declared value that is already in the map is rejected")
+			} else {
+				c.bad(key, p.instrPos(mu), "the declared values are entered into the value map without a test that the value is new: a list naming a value twice gives that value two codes, the cells get the last one and the filters look for the first (`= a` and `< b` silently match nothing)")
+			}
+		})
+	}
+	if n == 0 {
+		c.undecided("internal/ecolumn|declared values", "-", "no loop entering a []string parameter into a value map found")
+	}
+}
